@@ -37,7 +37,7 @@ import (
 const (
 	chainID      = "verif-c13"
 	chainLen     = 6 // blocks of the source chain
-	partSize     = 512
+	partSize     = 128
 	changeHeight = 3 // EndBlock of this block changes the validator set (in force from changeHeight+1)
 )
 
